@@ -162,6 +162,17 @@ def obligations(tier, rng):
             for sched in schedules([n]):
                 out.append(ob('C05', 'chunk', 'F2/%s/n=%d/%s' % (text(f), n, _sname(sched)), f=f, ns=[n], sched=sched,
                               oracle='offline', max_paths=20000, wall=900))
+    # all depth-2 nestings of the unary online operators over one variable (relational: real offline evaluator)
+    un1 = [lambda g: ('not', g), lambda g: ('abs', g), lambda g: ('once', g), lambda g: ('historically', g),
+           lambda g: ('once_t', g, 0, 1), lambda g: ('historically_t', g, 1, 2), lambda g: ('geq', g, ('const', 0.5))]
+    nest2 = [o(i(X)) for o in un1 for i in un1]
+    nest2 += [('and', o(X), i(X)) for o in un1[2:6] for i in un1[2:6] if o is not i] + [('since', o(X), ('not', X)) for o in un1[2:6]]
+    if quick:
+        nest2 = rng.sample(nest2, 10)
+    for f in nest2:
+        for sched in (schedules([3]) if not quick else schedules([3])[1:3]):
+            out.append(ob('C05', 'chunk', 'F2x/%s/n=3/%s' % (text(f), _sname(sched)), f=f, ns=[3], sched=sched, oracle='offline',
+                          max_paths=40000, wall=900))
     # pastified bounded-future specifications: output shifted by the horizon
     fut = [('eventually_t', X, 0, 1), ('always_t', X, 1, 2), ('eventually_t', X, 1, 2), ('always_t', X, 0, 1),
            ('and', ('once_t', X, 0, 1), ('eventually_t', X, 0, 1)), ('not', ('eventually_t', ('not', X), 0, 1)),
